@@ -77,6 +77,7 @@ type unitReport struct {
 	SolverS     float64        `json:"solver_time_s"`
 	WallS       float64        `json:"wall_s"`
 	Steps       int64          `json:"ssa_instructions_executed"`
+	Pruned      int64          `json:"branch_sides_pruned_by_value_sets"`
 	MaxDepth    int            `json:"max_decision_depth"`
 	Violations  int            `json:"violations"`
 	Confirmed   int            `json:"violations_replay_confirmed"`
@@ -224,7 +225,7 @@ func RunProperty(o Options) int {
 		}
 		rep := &unitReport{KnownTotal: nknown, Unit: u.Entry, Pkg: u.Pkg, Claim: u.Claim, Params: params, Paths: st.Paths, PathsByEnd: st.PathsByEnd, Nontrivial: st.Nontrivial,
 			Obligations: st.Obligations, Discharged: st.Discharged, Trivial: st.TrivialObl, Queries: st.Queries, SolverS: st.SolverTime.Seconds(),
-			WallS: time.Since(tu).Seconds(), Steps: st.Steps, MaxDepth: st.MaxDepth, Violations: len(ex.Violations), Reach: st.AssertReach}
+			WallS: time.Since(tu).Seconds(), Steps: st.Steps, Pruned: st.Pruned, MaxDepth: st.MaxDepth, Violations: len(ex.Violations), Reach: st.AssertReach}
 		for _, m := range st.Inconclusive {
 			rep.Inconcl = append(rep.Inconcl, m)
 		}
